@@ -1160,9 +1160,11 @@ func (st *State) rangeNext(f *Frame, x *ssa.Next) Value {
 	}
 	k := 0
 	if len(it.remain) > 1 && st.run.Opts.MapOrderChoice {
-		ch := st.addSym("maporder", 8)
-		st.assume(Cmp(OUlt, ch, C(8, uint64(len(it.remain)))))
+		// the symbol is parked in the state so that the child of the fork re-uses it
+		ch := st.pendingChoice("maporder", uint64(len(it.remain)))
 		k = int(st.concretize(ch))
+		st.choices = &choiceList{fmt.Sprintf("maporder=%d/%d", k, len(it.remain)), st.choices}
+		st.clearPending()
 	}
 	e := it.remain[k]
 	it2 := &rangeIter{m: it.m}
